@@ -45,6 +45,13 @@ IDS_ODD = ['$', '_', '$x', 'x$', '_y', 'a1', 'A', 'Zz', 'get', 'set', 'inx', 'ne
            u'\u00e9', u'\u03a9', u'\u0434', u'\u65e5\u672c', u'a\u00e9', u'x\u0300', u'a\u203fb', u'x\u0663',
            u'\u00f1', 'in1', 'var_', 'q2w3']
 LABELS = ['L', 'M', 'loop', 'outer', 'a', 'x']
+# character classes an IdentifierName is spelled from (pre-Unicode-3.0 characters only)
+ID_START_CLASSES = [['a', 'x', 'Z'], ['$', '_'], [u'\u00e9', u'\u03a9', u'\u0434', u'\u65e5']]
+ID_PART_CLASSES = ID_START_CLASSES + [['0', '1', '9'], [u'\u0300', u'\u0301'], [u'\u0663', u'\u0966'], [u'\u203f', u'\u2040']]
+RESERVED_NAMES = frozenset(
+    'break case catch continue debugger default delete do else finally for function if in instanceof new return '
+    'switch this throw try typeof var void while with class const enum export extends import super null true false '
+    'implements interface let package private protected public static yield'.split())
 PROP_RESERVED = ['return', 'in', 'if', 'new', 'class', 'null', 'true', 'this', 'function', 'typeof', 'do',
                  'default', 'delete', 'get', 'set', 'var', 'else', 'for', 'instanceof', 'void', 'enum']
 
@@ -124,6 +131,14 @@ class Gen(object):
     # -- terminals ---------------------------------------------------------
     def ident_name(self):
         c = self.cfg
+        if c.odd_ids and self.chance(4):
+            # compositional spelling: IdentifierStart x IdentifierPart classes (7.6) in every order
+            name = self.one(ID_START_CLASSES[self.pick(len(ID_START_CLASSES))])
+            for _ in range(1 + self.pick(3)):
+                name += self.one(ID_PART_CLASSES[self.pick(len(ID_PART_CLASSES))])
+            if name in RESERVED_NAMES or (not c.getset_idents and name in ('get', 'set')):
+                name += '_'
+            return name
         if c.odd_ids and self.chance(20):
             name = self.one(IDS_ODD)
             if not c.getset_idents and name in ('get', 'set'):
